@@ -289,7 +289,7 @@ fn key_scenario(name: &str, ddl: &str, def: TableDef, decls: Vec<Decl>, k1: V, k
 /// one-column CHECK scenario `t(a <ty> <CHECK>)`; `table_level` puts the CHECK after the column list
 fn check_scenario(form: &'static str, ty: Ty, expr: E::Expr, f: CheckFn, values: Vec<V>, table_level: bool, passes: Vec<Pass>, real_form: Option<&str>) -> Scenario {
     let compact: String = form.chars().filter(|c| *c != ' ').collect();
-    let name = format!("check-{}[{}]{}", if table_level { "table" } else { "col" }, compact, if ty == Ty::Real { "real" } else { "" });
+    let name = format!("check-{}[{}]{}", if table_level { "table" } else { "col" }, compact, if ty == Ty::Real { "real" } else if ty == Ty::BigInt { "bigint" } else { "" });
     let real = real_form.unwrap_or(form);
     let ddl = if table_level { format!("CREATE TABLE t (a {}, CHECK ({real}))", ty.sql_name()) } else { format!("CREATE TABLE t (a {} CHECK ({real}))", ty.sql_name()) };
     let def = if table_level { TableDef::new("t").col(ColumnDef::new("a", ty)).check(expr) } else { TableDef::new("t").col(ColumnDef::new("a", ty).check(expr)) };
@@ -522,6 +522,39 @@ fn scenarios(plant_opt: Option<&str>) -> Vec<Scenario> {
     v.push(check_scenario("a IN (1, 2)", Ty::Int, E::in_list(a(), vec![E::int(1), E::int(2)]), n(|x| x == 1.0 || x == 2.0), ints(), false, std_passes(2, 4), None));
     v.push(check_scenario("a BETWEEN 1 AND 5", Ty::Int, E::between(a(), E::int(1), E::int(5)), n(|x| x >= 1.0 && x <= 5.0), ints(), false, std_passes(2, 4), None));
     v.push(check_scenario("a + 1 > 1", Ty::Int, E::gt(E::add(a(), E::int(1)), E::int(1)), n(|x| x + 1.0 > 1.0), ints(), false, std_passes(2, 4), None));
+    // BIGINT column, bounds and values of boundary magnitude: the comparison must be exact where i64 and f64
+    // part ways (|x| >= 2^53) and at the ends of the i64 range.  Per bound b: CHECK (a <op> b) for the four
+    // ordering operators, values NULL, b-1, b, b+1 and the far end of the range on either side.
+    {
+        const P53: i64 = 1 << 53;
+        let far = i64::MAX - 1;
+        // (bound, quick tier?)  bounds that an f64 represents exactly come first
+        let bounds: Vec<(i64, bool)> = vec![(P53, true), (-P53, true), (P53 + 1, false), (-(P53 + 1), false), (i64::MAX - 1, true), (-(i64::MAX - 1), false)];
+        for (b, quick) in bounds {
+            let vals: Vec<V> = {
+                let mut xs = vec![b - 1, b, b + 1, far, -far];
+                xs.sort();
+                xs.dedup();
+                std::iter::once(V::Null).chain(xs.into_iter().map(i)).collect()
+            };
+            let ni = |f: Box<dyn Fn(i64) -> bool + Sync + Send>| -> CheckFn {
+                Box::new(move |r: &[V]| match &r[0] {
+                    V::Int(x) => Some(f(*x)),
+                    _ => None,
+                })
+            };
+            let forms: Vec<(String, E::Expr, CheckFn)> = vec![
+                (format!("a < {b}"), E::lt(a(), E::int(b)), ni(Box::new(move |x| x < b))),
+                (format!("a <= {b}"), E::le(a(), E::int(b)), ni(Box::new(move |x| x <= b))),
+                (format!("a > {b}"), E::gt(a(), E::int(b)), ni(Box::new(move |x| x > b))),
+                (format!("a >= {b}"), E::ge(a(), E::int(b)), ni(Box::new(move |x| x >= b))),
+            ];
+            for (form, expr, f) in forms {
+                let form: &'static str = Box::leak(form.into_boxed_str());
+                v.push(check_scenario(form, Ty::BigInt, expr, f, vals.clone(), false, std_passes(if quick { 2 } else { 0 }, 3), None));
+            }
+        }
+    }
     // table-level spelling of the simplest form
     v.push(check_scenario("a > 0", Ty::Int, E::gt(a(), E::int(0)), n(|x| x > 0.0), ints(), true, std_passes(2, 4), None));
     // REAL column (floats are written only here)
@@ -1053,7 +1086,7 @@ impl Check for C09 {
         let mut s = Spec::new(
             "C09",
             "model_checking",
-            "per schema (PRIMARY KEY int/text; UNIQUE int/text/composite with NULLs; NOT NULL with and without DEFAULT; column- and table-level CHECK in 17 forms over INT/REAL/TEXT; FOREIGN KEY with RESTRICT, CASCADE and no action) every history of single-row INSERT, UPDATE of key and non-key columns, DELETE (one key / all; multi-row DELETEs of 2-3 preloaded parents of which the first / a non-first / several are referenced), TRUNCATE of the parent, BEGIN/ROLLBACK/COMMIT over 2 key values + NULL (CHECK: values NULL,-1,0,1,10 / 'x','y' / -1.0,0.0,1.5,10.0) up to depth 3 (quick) / 4-5 (thorough) is executed on a fresh real Database in lock-step with the relational model; a case is one history (no merging: hidden index/tombstone state), non-trivial when its last step is a write; Ok/Err of every write is compared with the model's verdict on the resulting state and the stored tables are re-checked against every declaration by an independent evaluator; a history is cut at its first divergence (all histories that do not run through a divergence are still explored to full depth)",
+            "per schema (PRIMARY KEY int/text; UNIQUE int/text/composite with NULLs; NOT NULL with and without DEFAULT; column- and table-level CHECK in 17 forms over INT/REAL/TEXT and a <,<=,>,>= b on BIGINT for b = +-2^53, 2^63-2 (thorough also +-(2^53+1), -(2^63-2)) with values NULL, b-1, b, b+1, +-(2^63-2); FOREIGN KEY with RESTRICT, CASCADE and no action) every history of single-row INSERT, UPDATE of key and non-key columns, DELETE (one key / all; multi-row DELETEs of 2-3 preloaded parents of which the first / a non-first / several are referenced), TRUNCATE of the parent, BEGIN/ROLLBACK/COMMIT over 2 key values + NULL (CHECK: values NULL,-1,0,1,10 / 'x','y' / -1.0,0.0,1.5,10.0) up to depth 3 (quick) / 4-5 (thorough) is executed on a fresh real Database in lock-step with the relational model; a case is one history (no merging: hidden index/tombstone state), non-trivial when its last step is a write; Ok/Err of every write is compared with the model's verdict on the resulting state and the stored tables are re-checked against every declaration by an independent evaluator; a history is cut at its first divergence (all histories that do not run through a divergence are still explored to full depth)",
         );
         s.assumptions = &[
             "SQL-standard end-of-statement constraint semantics as implemented by refmodel::sql::rel (cross-checked against SQLite); no ON UPDATE actions; a FOREIGN KEY without ON DELETE refuses the delete of a referenced parent",
